@@ -73,23 +73,52 @@ func c13Outage(tier string, seed int64, idx int, scratch string) rt.CaseResult {
 			c.Inconclusive = append(c.Inconclusive, fmt.Sprintf("outage: the %s could not be completed within two seconds after the cut", end))
 			return c
 		}
+		// the cut may also fire a moment after the end call has returned (on a frame the client
+		// sends once it has its answer): a call that fails with a transport error, i.e. with none of
+		// the sentinels, is repeated until the connection is there again
+		stable := func(f func() ([]byte, error)) ([]byte, error) {
+			var b []byte
+			var err error
+			for try := 0; try < 200; try++ {
+				b, err = f()
+				if err == nil || seqrun.Class(err) != refmodel.OtherErr {
+					return b, err
+				}
+				time.Sleep(10 * time.Millisecond)
+			}
+			return b, err
+		}
 		// the handle is finished
-		_, gerr := tx.Get(ctxBg, k1)
-		serr := tx.Set(ctxBg, k1+"-late", v)
+		_, gerr := stable(func() ([]byte, error) { return tx.Get(ctxBg, k1) })
+		_, serr := stable(func() ([]byte, error) { return nil, tx.Set(ctxBg, k1+"-late", v) })
+		if seqrun.Class(gerr) == refmodel.OtherErr || seqrun.Class(serr) == refmodel.OtherErr {
+			c.Inconclusive = append(c.Inconclusive, fmt.Sprintf("outage: calls after the cut kept failing with transport errors for two seconds (%v / %v)", gerr, serr))
+			return c
+		}
 		c.Evals += 2
 		if seqrun.Class(gerr) != refmodel.TxNotFound || seqrun.Class(serr) != refmodel.TxNotFound {
 			c.Violate(fmt.Sprintf("transaction-alive-after-%s-returned-nil connection-lost-during-the-call", end), fmt.Sprintf("the connection was cut while %s was sent (first result: %v); after %s had returned nil, Get through the handle gives %v and Set %v (expected ErrTxNotFound for both)", end, first, end, gerr, serr), replay)
 			return c
 		}
-		ru, err := env.DB.Begin(ctxBg, fs_db.IsoLevelReadUncommitted)
+		var ru fs_db.Tx
+		for try := 0; try < 200; try++ {
+			if ru, err = env.DB.Begin(ctxBg, fs_db.IsoLevelReadUncommitted); err == nil {
+				break
+			}
+			time.Sleep(10 * time.Millisecond)
+		}
 		if err != nil {
-			c.Violate("begin-failed", err.Error(), replay)
+			c.Inconclusive = append(c.Inconclusive, "outage: Begin kept failing after the cut: "+err.Error())
 			return c
 		}
-		b1, e1 := ru.Get(ctxBg, k1)
-		b2, e2 := ru.Get(ctxBg, k2)
-		_, e3 := ru.Get(ctxBg, k1+"-late")
+		b1, e1 := stable(func() ([]byte, error) { return ru.Get(ctxBg, k1) })
+		b2, e2 := stable(func() ([]byte, error) { return ru.Get(ctxBg, k2) })
+		_, e3 := stable(func() ([]byte, error) { return ru.Get(ctxBg, k1+"-late") })
 		ru.Rollback(ctxBg)
+		if seqrun.Class(e1) == refmodel.OtherErr || seqrun.Class(e2) == refmodel.OtherErr || seqrun.Class(e3) == refmodel.OtherErr {
+			c.Inconclusive = append(c.Inconclusive, fmt.Sprintf("outage: reads after the cut kept failing with transport errors (%v / %v / %v)", e1, e2, e3))
+			return c
+		}
 		c.Evals += 3
 		has1, has2 := e1 == nil && bytes.Equal(b1, v), e2 == nil && bytes.Equal(b2, v)
 		none := seqrun.Class(e1) == refmodel.NotFound && seqrun.Class(e2) == refmodel.NotFound
